@@ -141,6 +141,63 @@ func c14(r *Run) {
 	if r.keep == nil {
 		r.borrow([]string{"C15.R1:close-site"}, "C15.R1", "C14.R1", func() { c15(r) })
 	}
+	// a success of one address attempt ends the dial with (connection, nil): the error remembered from an earlier address does not
+	// ride along with an established connection
+	{
+		fn := w.MustFn("(*dialer).dialTCP")
+		dialTCPFn := w.MustFn("DialTCP")
+		okEdge := cmpAtom(func(v ssa.Value) bool {
+			for _, x := range phiLeaves(v) {
+				e, ok := x.(*ssa.Extract)
+				if !ok || e.Index != 1 {
+					return false
+				}
+				c, ok := e.Tuple.(*ssa.Call)
+				if !ok || c.Call.StaticCallee() != dialTCPFn {
+					return false
+				}
+			}
+			return true
+		}, isNilConst, eqRel)
+		starts := edgesEstablishing(fn, okEdge)
+		ss := &Search{Fn: fn, Stop: func(i ssa.Instruction) bool { return isCall(i, dialTCPFn) }}
+		okAll := len(starts) > 0
+		var at ssa.Instruction
+		for _, ret := range ss.Reachable(starts, func(i ssa.Instruction) bool { _, ok := i.(*ssa.Return); return ok }) {
+			if !lastResultAll(ret.(*ssa.Return), isNilConst) {
+				okAll, at = false, ret
+			}
+		}
+		r.Visited += ss.Visited
+		r.ob("C14.R4:success-returns-nil-error", "when an address attempt succeeded dialTCP returns that connection with a nil error (never an established, registered connection together with an earlier attempt's error)", fn, at, okAll, "every return reached from DialTCP's err == nil edge has a nil error", true)
+	}
+	// the slot used for the connect is registered on the poller whose cache it was allocated from (it is freed into the cache of
+	// the poller it is bound to)
+	for _, name := range []string{"newPollDesc", "(*connection).initFDOperator"} {
+		fn := w.MustFn(name)
+		var allocRecv, bound ssa.Value
+		forEachIns(fn, func(i ssa.Instruction) {
+			if cc := callCommon(i); cc != nil && cc.IsInvoke() && cc.Method.Name() == "Alloc" {
+				allocRecv = cc.Value
+			}
+			if st, ok := i.(*ssa.Store); ok && isStoreToField(i, "FDOperator", "poll") {
+				bound = st.Val
+			}
+		})
+		if bound == nil {
+			continue // the binding is done by Alloc itself
+		}
+		r.ob("C14.R2:slot-bound-to-its-allocator:"+fn.Name(), "the poller a slot is bound to (operator.poll) is the poller whose cache allocated it: Free() returns the slot to operator.poll's cache, a slot from another poller's cache corrupts both free lists", fn, nil, allocRecv != nil && allocRecv == bound, "poll.Alloc() and op.poll = poll use the same value", true)
+	}
+	// the finalizer (which releases descriptor, slot and buffers) is registered before anything in init can fail and close
+	{
+		fn := w.MustFn("(*connection).init")
+		initFin := w.MustFn("(*connection).initFinalizer")
+		prep := w.MustFn("(*connection).onPrepare")
+		for _, site := range findIns(fn, func(i ssa.Instruction) bool { return isCall(i, prep) }) {
+			r.precedes("C14.R1:finalizer-registered-before-prepare", "connection.init registers the finalizer before it runs onPrepare/register: a registration that fails closes the connection, and only the finalizer gives the descriptor and the slot back", fn, site, func(i ssa.Instruction) bool { return isCall(i, initFin) }, nil, "initFinalizer() dominates onPrepare()")
+		}
+	}
 	isOwnerClose := func(i ssa.Instruction) bool {
 		if isSysCall("Close")(i) {
 			return true
